@@ -383,6 +383,23 @@ impl Prop for RoundTrip {
         };
         let unit = 10i128.pow(9 - digits);
         let what = format!("{:?} {} [{}] pattern {:?} text {:?}", c.kind, fmt_instant(c.v.i()), c.off, pattern, s);
+        // what a call returns may not depend on what was asked before: in one case out of three the
+        // same text and pattern are first offered to the two other types (a pattern that mixes date
+        // and time symbols tokenises differently for Date, Time and DateTime)
+        if (c.v.ns as u64 ^ c.v.day as u64 ^ s.len() as u64) % 3 == 0 {
+            cx.label("same_text_and_pattern_offered_to_the_other_types_first");
+            let _ = catch(|| {
+                if c.kind != Kind::Date {
+                    let _ = Date::parse(&s, &pattern);
+                }
+                if c.kind != Kind::Time {
+                    let _ = Time::parse(&s, &pattern);
+                }
+                if c.kind != Kind::DateTime {
+                    let _ = DateTime::parse(&s, &pattern);
+                }
+            });
+        }
         type Parsed = (String, i128, Option<i32>, (i64, u32, u32), i64);
         let parsed: Result<Result<Parsed, String>, PanicInfo> = catch(|| match c.kind {
             Kind::Date => Date::parse(&s, &pattern).map_err(|e| e.to_string()).map(|d| {
